@@ -358,7 +358,138 @@ class _Unroll(ast.NodeTransformer):
     visit_AsyncFunctionDef = _fn
 
 
+def _negate(t: ast.AST) -> ast.AST:
+    if isinstance(t, ast.UnaryOp) and isinstance(t.op, ast.Not):
+        return t.operand
+    if isinstance(t, ast.Compare) and len(t.ops) == 1:
+        flip = {ast.In: ast.NotIn, ast.NotIn: ast.In, ast.Is: ast.IsNot, ast.IsNot: ast.Is, ast.Eq: ast.NotEq, ast.NotEq: ast.Eq}
+        for a, b in flip.items():
+            if isinstance(t.ops[0], a):
+                return ast.copy_location(ast.Compare(left=t.left, ops=[b()], comparators=t.comparators), t)
+    return ast.copy_location(ast.UnaryOp(op=ast.Not(), operand=t), t)
+
+
+class _LoopShapes(ast.NodeTransformer):
+    """Two spellings of the same loops are brought to one:
+    `while True: if not C: break; BODY`  ->  `while C: BODY`            (the loop condition is a condition again)
+    `for ...: PRE; if T: REST` (an `if` without else ending the body)  ->  `for ...: PRE; if not T: continue; REST`"""
+    def __init__(self):
+        self.changed = 0
+
+    def visit_While(self, node: ast.While):
+        self.generic_visit(node)
+        if not node.orelse and isinstance(node.test, ast.Constant) and node.test.value is True and node.body and isinstance(node.body[0], ast.If) \
+                and not node.body[0].orelse and len(node.body[0].body) == 1 and isinstance(node.body[0].body[0], ast.Break):
+            node.test = _negate(node.body[0].test)
+            node.body = node.body[1:] or [ast.copy_location(ast.Pass(), node)]
+            self.changed += 1
+        return self._tail(node)
+
+    def visit_For(self, node: ast.For):
+        self.generic_visit(node)
+        return self._tail(node)
+
+    visit_AsyncFor = visit_For
+
+    def _tail(self, node):
+        last = node.body[-1] if node.body else None
+        if isinstance(last, ast.If) and not last.orelse and len(node.body) >= 1 and not (len(last.body) == 1 and isinstance(last.body[0], (ast.Continue, ast.Break, ast.Return, ast.Raise))):
+            guard = ast.copy_location(ast.If(test=_negate(last.test), body=[ast.copy_location(ast.Continue(), last)], orelse=[]), last)
+            node.body = node.body[:-1] + [guard] + last.body
+            self.changed += 1
+            return self._tail(node) if isinstance(node.body[-1], ast.If) and node.body[-1] is not guard else node
+        return node
+
+
+class _BoundAliases:
+    """`pop = self._ended.pop` ... `pop(k, None)`: a local bound exactly once to a method of an object named by a plain attribute
+    chain, read only as the function of calls, while neither the root name nor any attribute on the chain is assigned in the
+    function.  Every `pop(...)` then calls that very method of that very object: written back as `self._ended.pop(k, None)` and
+    the alias binding dropped (evaluating the chain has no effect of its own)."""
+
+    def __init__(self):
+        self.inlined = 0
+
+    def visit(self, tree: ast.AST) -> None:
+        for fn in [n for n in ast.walk(tree) if isinstance(n, _FUNCS)]:
+            self._fn(fn)
+
+    def _fn(self, fn) -> None:
+        parent: Dict[int, ast.AST] = {}
+        nodes = list(ast.walk(fn))
+        for n in nodes:
+            for ch in ast.iter_child_nodes(n):
+                parent[id(ch)] = n
+        params = {a.arg for a in fn.args.posonlyargs + fn.args.args + fn.args.kwonlyargs}
+        if fn.args.vararg:
+            params.add(fn.args.vararg.arg)
+        if fn.args.kwarg:
+            params.add(fn.args.kwarg.arg)
+        scoped = {x for n in nodes if isinstance(n, (ast.Global, ast.Nonlocal)) for x in n.names}
+        stores: Dict[str, List[ast.Name]] = {}
+        loads: Dict[str, List[ast.Name]] = {}
+        attr_written = set()
+        for n in nodes:
+            if isinstance(n, ast.Name):
+                (loads if isinstance(n.ctx, ast.Load) else stores).setdefault(n.id, []).append(n)
+            elif isinstance(n, ast.Attribute) and not isinstance(n.ctx, ast.Load):
+                attr_written.add(ast.unparse(n))
+            elif isinstance(n, ast.arg) and n is not fn and parent.get(id(n)) is not fn.args:
+                stores.setdefault(n.arg, []).append(n)  # parameter of a nested function / lambda shadows
+        own_stmts = {id(s) for s in _own_nodes(fn) if isinstance(s, ast.stmt)}
+        for name, ss in list(stores.items()):
+            if len(ss) != 1 or name in params or name in scoped or not isinstance(ss[0], ast.Name):
+                continue
+            st = parent.get(id(ss[0]))
+            if not (isinstance(st, ast.Assign) and len(st.targets) == 1 and st.targets[0] is ss[0] or isinstance(st, ast.AnnAssign) and st.value is not None) \
+                    or id(st) not in own_stmts:
+                continue
+            v = st.value
+            if not (isinstance(v, ast.Attribute) and _pure_chain(v)):
+                continue
+            uses = loads.get(name, [])
+            if not uses or not all(isinstance(parent.get(id(u)), ast.Call) and parent[id(u)].func is u for u in uses):
+                continue
+            root = v
+            prefixes = []
+            while isinstance(root, ast.Attribute):
+                root = root.value
+                prefixes.append(ast.unparse(root))
+            rs = stores.get(root.id, [])
+            if root.id in scoped or len(rs) > (0 if root.id in params else 1) or any(p in attr_written for p in prefixes) or ast.unparse(v) in attr_written:
+                continue
+            # only a method: the class attribute looked up on the object (a callable stored in a field may be rebound by anyone)
+            holder = parent.get(id(st))
+            done = False
+            for fld in ("body", "orelse", "finalbody"):
+                blk = getattr(holder, fld, None)
+                if isinstance(blk, list) and st in blk:
+                    blk.remove(st)
+                    if not blk:
+                        blk.append(ast.copy_location(ast.Pass(), st))
+                    done = True
+                    break
+            if not done:
+                continue
+            for u in uses:
+                call = parent[id(u)]
+                call.func = ast.copy_location(_clone(v), u)
+                for x in ast.walk(call.func):
+                    ast.copy_location(x, u)
+            self.inlined += 1
+
+
+def _clone(e: ast.AST) -> ast.AST:
+    import copy
+    return copy.deepcopy(e)
+
+
 def normalise(tree: ast.Module) -> ast.Module:
+    ls = _LoopShapes()
+    ls.visit(tree)
+    ba = _BoundAliases()
+    ba.visit(tree)
+    tree._tpsa_bound_aliases = ba.inlined  # type: ignore[attr-defined]
     cm = _ConstMethods(tree)
     cm.visit(tree)
     f = _Fold()
